@@ -1313,10 +1313,10 @@ def generated_obligations(ck):
              'ok': ok, 'log': log}]
 
 # ----------------------------------------------------------------------------------------
-RULE = ('registry: all histories of <= 3 registrations (thorough: also <= 4 over one group, <= 5 over 6 operations) over 2 groups x {name, alias, suffix} x 2 names x force '
+RULE = ('registry: all histories of <= 3 registrations (thorough: also <= 4 over one group, <= 5 over 6 operations) over 2 groups x {name, alias, suffix} x 2 names x force, plus all histories <= 3 over pairs differing only in case (x/X as name, alias, suffix) '
         'against a table-driven entry_points(), each followed by a fixed probe vector of 16 look-ups, plus pinned (F11) and random/malformed histories against the real installed entry points; '
         '_open/open_raw/open_unicode: the full matrix of (first, fallback) opener outcomes x TEXMFOUTPUT x mode x file-name shapes, and of isfile x kpsewhich outcomes (a real subprocess); '
-        'probe plug-ins (recording parse_stream / chunked write_stream) through every BaseParser/BaseWriter method and every module-level function x 4 codecs (utf-8, latin-1, ascii, utf-16) over fixed and random texts / byte strings incl. malformed UTF-8/UTF-16; '
+        'recorder subclasses of the real bibtex/yaml/bibtexml readers and writers (fn 9) and probe plug-ins (recording parse_stream / chunked write_stream) through every BaseParser/BaseWriter method and every module-level function x 4 codecs (utf-8, latin-1, ascii, utf-16) over fixed and random texts / byte strings incl. malformed UTF-8/UTF-16; '
         'oracle only: the three real formats x aliases x every registered suffix x 5 encodings x all reader and writer entry points over generated databases (incl. CRLF documents); '
         'open failures on the real file system through open_raw/open_unicode/to_file/write_file/parse_file. '
         'distinct = distinct (function, argument); non-trivial = a registration succeeded / an open attempt failed or fell back / a non-empty suffix / any glue case.')
@@ -1336,7 +1336,7 @@ ASSUMPTIONS = [
     'POSIX: os.linesep is "\\n" (text files are written without newline translation)',
 ]
 PARTIAL = [
-    'entry-point agreement is proved for BaseParser/BaseWriter and the module-level functions over an abstract plug-in; of the overrides only the YAML writer is modelled (yaml_to_bytes_refuted / _partial), the BibTeXML overrides and all parse_stream/write_stream bodies are covered by the oracle only',
+    'entry-point agreement is proved for BaseParser/BaseWriter, the module-level functions and the dispatch of the three shipped plug-ins (stream kind, overrides, XML declaration / encoding hand-over) over abstract bodies; the bodies themselves (BibTeX grammar, yaml.load/dump, ElementTree, tree walkers) are covered end to end by the oracle only',
     'parse_file of a named file reads with universal newlines: the theorem relates it to parse_string of the newline-normalised text (equal when the text has no CR)',
     'write_file_writes_to_bytes is refuted as stated (FC17b); write_file_writes_to_bytes_partial needs "something was written or the empty text encodes to nothing"',
     'codec round trip is proved for the four modelled codecs utf-8, latin-1, ascii, utf-16 (utf8_roundtrip, utf16_roundtrip, modelled_entry_points_agree); for other encodings it is a hypothesis of entry_points_agree',
